@@ -76,6 +76,11 @@ def run(tier, chk):
     from . import c05
     plain += c05.random_trees(rnd, 1500 if quick else 20000)
     pairs += [[t, {'k': 'none'}] for t in plain]
+    # trees with repeated sub-trees (adjacent slices of one source ...) and their root-reversed variant; the variant's
+    # AC-equivalence is re-checked by T_C13 (ACEquiv) like for generated ones
+    for t in c05.sharing_trees(rnd, 800 if quick else 8000):
+        v = dict(t, a=list(reversed(t['a']))) if t['o'] in AC else {'k': 'none'}
+        pairs.append([t, v])
     if quick and len(pairs) > 30000:
         rnd.shuffle(pairs)
         pairs = pairs[:30000]
@@ -122,7 +127,7 @@ def run_dumps(tier, chk, rnd):
     for i, c in enumerate(cases):
         outs = [res[s][i] for s in SEEDS]
         recs.append({'id': 100000 + i, 'e': {'k': 'none'}, 'v': {'k': 'none'},
-                     'runs': [{'st': 'ok', 'se': {'k': 'none'}, 'sse': {'k': 'none'}, 'sv': {'k': 'none'}, 'txt': o['txt']} for o in outs]})
+                     'runs': [{'st': 'ok', 'se': {'k': 'none'}, 'sse': {'k': 'none'}, 'sv': {'k': 'none'}, 'she': {'k': 'none'}, 'she2': {'k': 'none'}, 'shv': {'k': 'none'}, 'txt': o['txt']} for o in outs]})
     verdicts, st = core.judge('T_C13', recs, shards=2)
     chk.add_tlc(st)
     chk.cov['traces_validated_against_impl'] += len(recs)
@@ -152,15 +157,18 @@ def negative_control(chk):
     v = {'k': 'op', 'w': 8, 'o': '+', 'u': 0, 'a': [y, x]}
     bad = {'k': 'op', 'w': 8, 'o': '+', 'u': 0, 'a': [y, y]}
     none = {'k': 'none'}
-    ok = {'st': 'ok', 'se': e, 'sse': e, 'sv': e, 'txt': ['(x8+y8)', '(x8+y8)']}
+    ok = {'st': 'ok', 'se': e, 'sse': e, 'sv': e, 'txt': ['(x8+y8)', '(x8+y8)'], 'she': e, 'she2': e, 'shv': e}
     recs = [{'id': 0, 'e': e, 'v': v, 'runs': [ok, ok]},
             {'id': 1, 'e': e, 'v': v, 'runs': [dict(ok, sse=v), ok]},
             {'id': 2, 'e': e, 'v': v, 'runs': [dict(ok, sv=v), ok]},
             {'id': 3, 'e': e, 'v': v, 'runs': [ok, dict(ok, txt=['(y8+x8)', '(x8+y8)'])]},
-            {'id': 4, 'e': e, 'v': bad, 'runs': [ok, ok]}]
+            {'id': 4, 'e': e, 'v': bad, 'runs': [ok, ok]},
+            {'id': 5, 'e': e, 'v': v, 'runs': [dict(ok, she2=v), ok]},
+            {'id': 6, 'e': e, 'v': v, 'runs': [dict(ok, shv=v), ok]}]
     verdicts, st = core.judge('T_C13', recs, shards=1)
     got = sorted((v_['id'], v_['v'][0]['clause']) for v_ in verdicts)
-    want = [(1, 'C13.idempotent'), (2, 'C13.order_insensitive'), (3, 'C13.seed_independent'), (4, 'gen.variant_not_equivalent')]
+    want = [(1, 'C13.idempotent'), (2, 'C13.order_insensitive'), (3, 'C13.seed_independent'), (4, 'gen.variant_not_equivalent'),
+            (5, 'C13.shared_objects.repeatable'), (6, 'C13.shared_objects.order_insensitive')]
     chk.cov['negative_controls'].append({'name': 'non-idempotent / order-sensitive / seed-dependent outputs and a bogus variant rejected', 'ok': got == want, 'got': got})
     if got != want:
         raise core.MachineryError('C13 negative control failed: %r' % (got,))
